@@ -391,6 +391,12 @@ func registerExtlib(ex *Executor) {
 		v := smt.Var(fmt.Sprintf("nd%d_%s", len(st.ND), "randstr"), smt.String)
 		st.ND = append(st.ND[:len(st.ND):len(st.ND)], NDRec{Kind: "ext-string", Tag: "base62.Random", T: v})
 		st.addPC(smt.Ne(v, smt.StrC("")))
+		// A-random: strings drawn from the system's random source do not repeat
+		prev, _ := st.Ghost["rand.strings"].([]*smt.Term)
+		for _, o := range prev {
+			st.addPC(smt.Ne(v, o))
+		}
+		st.Ghost["rand.strings"] = append(append([]*smt.Term(nil), prev...), v)
 		return TupleV{v, IfaceV{}}, cNext
 	}
 }
